@@ -120,6 +120,7 @@ def gen_function(contract, contracts, known=()):
 
         def body(path, interp=interp, f=f, specs=specs):
             interp.path = path
+            path.interp = interp
             interp.depth = 0
             interp.spec = 0
             V.reset_fresh()
@@ -266,7 +267,7 @@ def build_replay(pid, contract, ob_name, meta, model, verdict_raw):
         f"sys.path.insert(0, {ROOT!r})",
         "import numpy as np",
         "from dask import array as da",
-        "from pyvc.native import HELPERS, _generic_array, _rotation_from_matrix",
+        "from pyvc.native import HELPERS, _generic_array, _rotation_from_matrix, _Backend",
         "from pyvc import contract as _C",
         f"import contracts.{contract.cls.__module__.split('.')[-1]} as _cm",
         f"_c = _C.REGISTRY[{contract.key!r}]",
@@ -347,7 +348,7 @@ def build_replay(pid, contract, ob_name, meta, model, verdict_raw):
 def run_replay(path):
     try:
         p = subprocess.run([PY, path], capture_output=True, text=True, timeout=300,
-                           env={**os.environ, "PYTHONPATH": ROOT})
+                           env={**os.environ, "PYTHONPATH": X.REPO + os.pathsep + ROOT})
     except subprocess.TimeoutExpired:
         return "timeout", ""
     out = (p.stdout + p.stderr)
@@ -364,9 +365,26 @@ def run_replay(path):
 # ---------------------------------------------------------------------------
 
 
+import re as _re
+
+
 def obligation_base(name):
     """obligation id without the path suffix"""
     return name.rsplit("@p", 1)[0]
+
+
+def stable_name(name):
+    """obligation id without path number and source line (stable under unrelated edits)"""
+    n = name.rsplit("@p", 1)[0]
+    n = _re.sub(r"@L\d+(\.ax\d+)?", "", n)
+    return n
+
+
+def load_baseline():
+    p = os.path.join(ROOT, "baseline_obligations.json")
+    if os.path.exists(p):
+        return json.load(open(p))
+    return {}
 
 
 class PropertyRun:
@@ -391,7 +409,8 @@ class PropertyRun:
         self.lines.append(s)
 
 
-def check_property(pid, tier="quick", seed=0, bounded_hooks=None, only=None):
+def check_property(pid, tier="quick", seed=0, bounded_hooks=None, only=None, write_baseline=False):
+    baseline = load_baseline()
     contracts = load_contracts()
     known = [k for k in load_known_findings() if k["property"] == pid]
     run = PropertyRun(pid, tier, seed)
@@ -485,12 +504,20 @@ def check_property(pid, tier="quick", seed=0, bounded_hooks=None, only=None):
             run.say(f"  counterexample: {meta_short}")
             for l in out.splitlines()[-6:]:
                 run.say("  | " + l)
-        elif status == "no-input":
+        elif stable_name(name) in baseline.get(pid, []) and status in ("not-confirmed", "no-input"):
+            # the obligation was discharged on the reference tree and is refuted now; no concrete failing input
+            with open(path, "a") as f:
+                f.write("\n# native replay did not reproduce the counter-model (%s); the obligation was discharged on the\n"
+                        "# reference tree (baseline_obligations.json) and is refuted on this tree: no-failing-input-found\n" % status)
             run.violations.append({"obligation": name, "replay": path, "model": meta_short, "no_failing_input": True})
             run.say(f"VIOLATION property={pid} replay={path} no-failing-input-found")
-            run.say(f"  failed obligation: {name}")
+            run.say(f"  failed obligation: {name} (discharged on the reference tree, refuted now; stage {r.get('stage')})")
             run.say(f"  clause: {meta.get('clause')}")
             run.say(f"  solver model: {meta_short}")
+        elif r.get("candidate_only"):
+            run.undecided.append(name)
+            run.say(f"UNDECIDED property={pid} obligation={name}: candidate counter-model (weakened query) not "
+                    f"confirmed on the real code; replay={path}")
         else:
             run.faults.append(f"{name}: counter-model not reproduced natively ({status})")
             run.say(f"CHECKER-FAULT property={pid} obligation={name}: solver counter-model {meta_short} was not "
@@ -522,6 +549,11 @@ def check_property(pid, tier="quick", seed=0, bounded_hooks=None, only=None):
         exit_code = 3
     elif run.undecided:
         exit_code = 2
+    if write_baseline and exit_code == 0 and only is None:
+        baseline[pid] = sorted({stable_name(r["name"]) for r in run.results if r["verdict"] == "unsat"})
+        with open(os.path.join(ROOT, "baseline_obligations.json"), "w") as f:
+            json.dump(baseline, f, indent=1, sort_keys=True)
+        run.say(f"baseline for {pid}: {len(baseline[pid])} obligation names written")
     return finish(run, exit_code)
 
 
@@ -532,7 +564,7 @@ def replay_known(pid, k, contracts):
         return "confirmed" if k.get("no_witness") else "error:no witness"
     path = os.path.join(ROOT, w)
     try:
-        p = subprocess.run([PY, path], capture_output=True, text=True, timeout=300, env={**os.environ, "PYTHONPATH": ROOT})
+        p = subprocess.run([PY, path], capture_output=True, text=True, timeout=300, env={**os.environ, "PYTHONPATH": X.REPO + os.pathsep + ROOT})
     except subprocess.TimeoutExpired:
         return "error:timeout"
     if "NOT-CONFIRMED" in p.stdout:
